@@ -611,3 +611,126 @@ def prune_bool_upvar(body, upvar_suffix, value):
             drop = t['ts'][0] if value else t['ts'][1]
             removed.add((bi, drop))
     return removed
+
+
+def must_pass_chain(ctx, key, body, steps, desc, removed_edges=frozenset(), rule='K1-chain'):
+    """steps: list of (name, [sites]). Checks that every success path from entry passes a site of
+    step 1, and from (each) chosen site of step i every success path to Return passes a site of
+    step i+1 that lies after it. Greedy: for step i+1 use the sites reachable from the step-i site."""
+    errs = core.error_exit_blocks(body)
+    rets = body.return_blocks()
+    cur = None   # list of current anchor sites (any of which may have been passed)
+    for i, (name, sites) in enumerate(steps):
+        sites = list(sites)
+        if not sites:
+            return ctx.ob(key, rule, body.path, desc, False, 'step %d (%s): no such call site' % (i + 1, name), body.loc())
+        if cur is None:
+            w = body.find_path([0], rets, removed=set(sites) | errs, removed_edges=removed_edges)
+            if w:
+                return ctx.ob(key, rule, body.path, desc, False, 'success path that never reaches %s: %s' % (name, short_path(body, w)), body.loc())
+            cur = sites
+        else:
+            nxt = []
+            for s in sites:
+                if any(s in body.reaches(c, removed_edges=removed_edges) for c in cur):
+                    nxt.append(s)
+            if not nxt:
+                return ctx.ob(key, rule, body.path, desc, False, 'step %d (%s) has no site after step %d' % (i + 1, name, i), body.loc())
+            # the LAST anchor of the previous step that can still be followed: require from every cur site
+            # that paths to Return pass some nxt site lying after it
+            for c in cur:
+                after = [s for s in nxt if s in body.reaches(c, removed_edges=removed_edges)]
+                starts = [x for x in body.succ(c) if (c, x) not in removed_edges]
+                w = body.find_path(starts, rets, removed=set(after) | errs, removed_edges=removed_edges)
+                if w:
+                    return ctx.ob(key, rule, body.path, desc, False,
+                                  'after %s at %s a success path returns without passing %s: %s' % (steps[i - 1][0], body.loc(c), name, short_path(body, [c] + w)), body.loc(c))
+            cur = nxt
+    return ctx.ob(key, rule, body.path, desc, True, '', body.loc())
+
+
+def prune_option_field(body, field, keep_some):
+    """assume the Option behind `field` is Some (keep_some) / None: edges to remove for switches on
+    a discriminant whose backward slice (no binops) contains `field`."""
+    removed = set()
+    for bi in body.normal_blocks():
+        t = body.term(bi)
+        if t['k'] != 'switch':
+            continue
+        d = switch_def(body, bi)
+        if not d or d[2] != 'assign' or d[3]['r']['k'] != 'discr':
+            continue
+        sl = backward_slice(body, [d[3]['r']['p']])
+        if field not in sl.fields:
+            continue
+        for v, tg in zip(t['vals'], t['ts']):
+            if (v == 1) != bool(keep_some):
+                removed.add((bi, tg))
+        # the otherwise edge stands for the other variant when only one value is listed
+        if len(t['vals']) == 1:
+            other = t['ts'][-1]
+            listed_is_some = (t['vals'][0] == 1)
+            if listed_is_some == bool(keep_some):
+                removed.add((bi, other))
+    return removed
+
+
+def exit_requires_flag(ctx, key, body, site, field, desc, rule='K3-loop-exit'):
+    """the function can return successfully after `site` only by taking the NON-ZERO edge of a
+    branch whose discriminant derives from an atomic load of `field` (e.g. the shutdown flag)."""
+    removed = set()
+    n = 0
+    for bi in body.normal_blocks():
+        t = body.term(bi)
+        if t['k'] != 'switch' or t['vals'] != [0] or len(t['ts']) != 2:
+            continue
+        p = op_place(t['a'])
+        if p is None:
+            continue
+        sl = backward_slice(body, [p])
+        if field in sl.fields and any(re.search(r'atomic::Atomic.*::load$', c) for c in sl.calls) and not (sl.binops - {'Not'}):
+            # polarity through Not chain
+            flip = False
+            l = p[0]
+            for _ in range(4):
+                ds = body.defs().get(l, [])
+                if len(ds) == 1 and ds[0][2] == 'assign' and ds[0][3]['r']['k'] == 'un' and ds[0][3]['r']['op'] == 'Not':
+                    flip = not flip
+                    l = op_local(ds[0][3]['r']['a'][0])
+                else:
+                    break
+            set_edge = t['ts'][0] if flip else t['ts'][1]
+            removed.add((bi, set_edge))
+            n += 1
+    starts = list(body.succ(site))
+    w = body.find_path(starts, body.return_blocks(), removed=core.error_exit_blocks(body), removed_edges=removed) if n else ['?']
+    return ctx.ob(key, rule, body.path, desc, n > 0 and w is None,
+                  ('no branch on a load of %s' % field) if n == 0 else ('' if w is None else 'the loop can be left with the flag unset: ' + short_path(body, [site] + w)), body.loc(site))
+
+
+# ----------------------------------------------------------------------------- K7 panic-site enumeration
+
+PANIC_CALL_RX = re.compile(r'(::unwrap$|::expect$|::unwrap_err$|::expect_err$|^core::panicking::|^std::rt::begin_panic|^core::option::unwrap_failed|^core::result::unwrap_failed|^std::process::abort|::unwrap_unchecked$)')
+INDEX_CALL_RX = re.compile(r'(Index(Mut)?<.*>>::index(_mut)?$|^std::ops::Index(Mut)?::index(_mut)?$|::copy_from_slice$|::clone_from_slice$|::split_at(_mut)?$|::swap$|^core::slice::index::|::from_le_bytes$ZZZ)')
+
+def panic_sites(body):
+    """every panic-capable construct of a body (normal blocks): list of dicts
+    {kind, what, block, loc, macro}. kind in assert:<Msg> | call:unwrap | call:panic | call:index."""
+    res = []
+    nb = body.normal_blocks()
+    for bi in sorted(nb):
+        t = body.term(bi)
+        mx = t.get('mx', '')
+        if t['k'] == 'assert':
+            res.append({'kind': 'assert:' + t['msg'], 'what': t['msg'], 'block': bi, 'loc': body.loc(bi), 'mx': mx})
+        elif t['k'] == 'call':
+            names = call_names(t)
+            nm = names[0] if names else '?'
+            if any(PANIC_CALL_RX.search(n) for n in names):
+                if 'panicking' in nm or 'begin_panic' in nm:
+                    res.append({'kind': 'call:panic', 'what': nm, 'block': bi, 'loc': body.loc(bi), 'mx': mx})
+                else:
+                    res.append({'kind': 'call:unwrap', 'what': (t.get('fa') or nm), 'block': bi, 'loc': body.loc(bi), 'mx': mx})
+            elif any(INDEX_CALL_RX.search(n) for n in names) or (t.get('fa') and re.search(r'as std::ops::Index(Mut)?<', t['fa'])):
+                res.append({'kind': 'call:index', 'what': (t.get('fa') or nm), 'block': bi, 'loc': body.loc(bi), 'mx': mx})
+    return res
